@@ -128,7 +128,7 @@ def run(tier):
                         k = "VLink+inv"
                     if k == "VUnlink" and o.get("hard") in (True, "TRUE"):
                         k = "VUnlink+hard"
-                    if k in ("VDelete", "VDeleteCut") and any(p_.get("op") == "VLink" and o.get("id") in (p_.get("s"), p_.get("t")) for p_ in x["ops"]):
+                    if k in ("VDelete", "VDeleteCut", "VDeleteSnapCut") and any(p_.get("op") == "VLink" and o.get("id") in (p_.get("s"), p_.get("t")) for p_ in x["ops"]):
                         k += "@linked"
                     ks.add(k + ("!" if o.get("res") == "err" else ""))
                 return tuple(sorted(ks))
